@@ -197,6 +197,9 @@ func lwCase(src string) (line, impl string, ok bool) {
 		}
 		if lwKinds[e.Kind] {
 			parts = append(parts, lwCanonErr(e))
+		} else if e.Kind != "expression" {
+			// every kind the linter can produce without external tools is modelled (expression: by AL.RuleExpr / exprwf)
+			parts = append(parts, fmt.Sprintf("%d:%d:%s:?unmodelled-kind", e.Line, e.Column, e.Kind))
 		}
 	}
 	return line, strings.Join(parts, ";"), true
